@@ -213,6 +213,9 @@ func runFs() {
 		}
 		fs.Mkdir("d")
 		fs.Mkdir("quiet")
+		for c := 0; c < fThreads; c++ {
+			fs.Mkdir(fmt.Sprintf("pc%d", c)) // one private directory per client
+		}
 		fs.AtomicCreate("quiet", "x", []byte("x"))
 		// one file every client reads while client 0 appends to it (some appends larger than any plausible chunk):
 		// a read must see whole appends only
@@ -284,6 +287,23 @@ func runFs() {
 					if out.Ok && !out.Panic {
 						myFds = append(myFds, ofd{filesys.File(out.Fd), true})
 						myNames = append(myNames, name)
+					}
+					// … and, still in step, every client creates the SAME file name atomically in its own directory and reads it back
+					pc := fmt.Sprintf("pc%d", c)
+					data := fmt.Sprintf("<same %d.%d>", c, j)
+					do(fsIn{Op: "atomic", Dir: pc, Name: "same", Data: data}, func() fsOut {
+						fs.AtomicCreate(pc, "same", []byte(data))
+						return fsOut{}
+					})
+					ro := do(fsIn{Op: "open", Dir: pc, Name: "same"}, func() fsOut {
+						return fsOut{Fd: int(fs.Open(pc, "same"))}
+					})
+					if !ro.Panic {
+						fd := filesys.File(ro.Fd)
+						do(fsIn{Op: "readall", Fd: int(fd)}, func() fsOut {
+							return fsOut{Data: string(fs.ReadAt(fd, 0, 1<<16))}
+						})
+						do(fsIn{Op: "close", Fd: int(fd)}, func() fsOut { fs.Close(fd); return fsOut{} })
 					}
 				}
 				for k := 0; k < fOps; k++ {
